@@ -415,11 +415,34 @@ func run(r *vt.Run, t vt.TB, s spec) {
 				r.Violation(t, cp, "error-without-hot-journal", "journal mode %s, journal_size_limit %q: the database as SQLite left it after its last completed commit (journal file present: %v) cannot be read: %v", s.JournalMode, s.Limit, baseJournal, err)
 				return
 			}
+			// (before the crash it was also refused once - a SQLite connection
+			// held EXCLUSIVE at that moment - and then read the schema again)
+			if err := env.O.Open("busy", c); err != nil {
+				r.Harness(t, "open busy: %v", err)
+			}
+			if err := env.O.Exec("busy", "BEGIN EXCLUSIVE"); err != nil {
+				r.Harness(t, "begin exclusive: %v", err)
+			}
+			if err := old.Select("t", func(sqlittle.Row) {}, "a"); err != nil {
+				r.Count("pre-crash-handle-refused-once", 1)
+			}
+			if err := env.O.Exec("busy", "ROLLBACK"); err != nil {
+				r.Harness(t, "rollback busy: %v", err)
+			}
+			env.O.Close("busy")
+			if _, err := old.Columns("t"); err != nil {
+				old.Close()
+				r.Violation(t, cp, "error-without-hot-journal", "journal mode %s: the base state cannot be read after another connection's EXCLUSIVE lock is gone: %v", s.JournalMode, err)
+				return
+			}
 			overwrite(work, c)
 			os.Remove(c + "-journal")
 			if jerr == nil {
 				copyFile(work+"-journal", c+"-journal")
 			}
+			// (its first call after the crash is a plain high-level select)
+			var first2 [][]interface{}
+			ferr2 := old.Select("t", func(row sqlittle.Row) { first2 = append(first2, append([]interface{}{}, row...)) }, "a", "b", "c")
 			got2, gerr2 := readAllHandle(old)
 			old.Close()
 			// ... and one that was opened before the writer started and has
@@ -489,25 +512,31 @@ func run(r *vt.Run, t vt.TB, s spec) {
 				got  map[string][][]interface{}
 				err  error
 			}
-			if ferr4 == nil {
-				// the table t may have lost or gained rows, and column d; a, b, c are the first three columns
-				wrows, ok := want["t"]
-				bad := !ok || len(wrows) != len(first4)
-				for i := 0; !bad && i < len(wrows); i++ {
-					if len(wrows[i]) < 3 || !e1.SameRow(first4[i], wrows[i][:3]) {
-						bad = true
+			for _, fs := range []struct {
+				who  string
+				rows [][]interface{}
+				err  error
+			}{{"handle opened before the crash and not used until after it", first4, ferr4}, {"handle opened before the crash (refused once by a busy writer, then used) at its first select after the crash", first2, ferr2}} {
+				if fs.err == nil {
+					// the table t may have lost or gained rows, and column d; a, b, c are the first three columns
+					wrows, ok := want["t"]
+					bad := !ok || len(wrows) != len(fs.rows)
+					for i := 0; !bad && i < len(wrows); i++ {
+						if len(wrows[i]) < 3 || !e1.SameRow(fs.rows[i], wrows[i][:3]) {
+							bad = true
+						}
 					}
-				}
-				if bad {
-					r.Violation(t, cp, "unrecovered-state-read", "%s; handle opened before the crash whose first call comes after it: Select(t) succeeds with %d rows that are not the state SQLite recovers (%d rows)", where0, len(first4), len(wrows))
+					if bad {
+						r.Violation(t, cp, "unrecovered-state-read", "%s; %s: Select(t) succeeds with %d rows that are not the state SQLite recovers (%d rows)", where0, fs.who, len(fs.rows), len(wrows))
+						return
+					}
+					if mustSucceed {
+						r.Count("sqlittle-read", 1)
+					}
+				} else if mustSucceed {
+					r.Violation(t, cp, "error-without-hot-journal", "%s; %s: Select(t) fails (%v) although no transaction needs recovery", where0, fs.who, fs.err)
 					return
 				}
-				if mustSucceed {
-					r.Count("sqlittle-read", 1)
-				}
-			} else if mustSucceed {
-				r.Violation(t, cp, "error-without-hot-journal", "%s; handle opened before the crash whose first call comes after it: Select(t) fails (%v) although no transaction needs recovery", where0, ferr4)
-				return
 			}
 			// the same files reached under other names: through a symbolic link
 			// to the database file (SQLite keeps the journal next to the real
